@@ -247,6 +247,7 @@ func MustStateful(rules Rules) *StatefulDefinition {
 func New(rules Rules) (*StatefulDefinition, error) {
 	compiled := compiledRules{}
 	for key, set := range rules {
+		compiled[key] = make([]compiledRule, 0, len(set)) // A state without rules is still a state.
 		for i, rule := range set {
 			if validate, ok := rule.Action.(validatingRule); ok {
 				if err := validate.validate(rules); err != nil {
@@ -323,6 +324,7 @@ func (d *StatefulDefinition) MarshalJSON() ([]byte, error) {
 func (d *StatefulDefinition) Rules() Rules {
 	out := Rules{}
 	for state, rules := range d.rules {
+		out[state] = make([]Rule, 0, len(rules))
 		for _, rule := range rules {
 			out[state] = append(out[state], rule.Rule)
 		}
